@@ -8,6 +8,7 @@ _here = os.path.dirname(os.path.abspath(__file__))
 COMMON = open(os.path.join(_here, "_dec_common.rs")).read()
 
 HEAD = r'''//@ target: src/decoder.rs
+//@ strip-tracing src/decoder.rs
 /*COMMON*/
 fn dec<M: Matcher>(m: &M, buf: &[u8], v: &[usize; 10]) -> Option<M::Item> {
     if stub_active() { m.decode(buf) } else { m.decode(&expand(buf, v)) }
@@ -155,8 +156,21 @@ parts.append(h("c04_bracketed_paste", "C04,C02", "\x1b[200~zz \xc3\xa9\x1b[201~"
     }
     std::mem::forget(got);''', tier="thorough", unwind=26))
 
-# ---- DECRPSS (ReportSettingMatcher): a harness on it makes kani-compiler 0.68 panic (intrinsics.rs:243, `ends_with` ->
-# compare_bytes); its content (sgr_face + apply) is covered by the C06 harnesses; not under contract here
+# ---- DECRPSS (ReportSettingMatcher): needs normalisation K1 (the tracing::info! in its fallback arm made kani-compiler 0.68 panic,
+# intrinsics.rs:243); its SGR content (sgr_face + apply) is covered by the C06 harnesses, here: framing and no panic
+parts.append(h("c02_decrpss_valid", "C02,C04", "\x1bP1$r0;am\x1b\\", "<ReportSettingMatcher as Matcher>::decode",
+  "a valid DECRPSS report of an SGR setting (payload `0;<n>m`, any n) is reported as the current face; the payload is sliced inside the matched bytes (no panic)",
+  '''    let got = dec(&ReportSettingMatcher, buf, &v);
+    match &got {
+        Some(TerminalEvent::FaceGet(_)) => {}
+        _ => assert!(false),
+    }
+    std::mem::forget(got);''', unwind=24))
+parts.append(h("c02_decrpss_invalid", "C02,C04", "\x1bP0$r0;am\x1b\\", "<ReportSettingMatcher as Matcher>::decode",
+  "a DECRPSS report flagged invalid (code 0) yields no event; no panic",
+  '''    let got = dec(&ReportSettingMatcher, buf, &v);
+    assert!(got.is_none());
+    std::mem::forget(got);''', unwind=24))
 
 # ---- OSC colour reports (parse_color): harnesses for rgb:<1-4 hex digits> were built and withdrawn - str::parse::<RGBA>,
 # strip_prefix, split and from_str_radix over symbolic text do not finish in CBMC (4 x 600 s timeouts); not under contract
